@@ -188,14 +188,21 @@ class Ctx:
                 p2 = subprocess.run(cmd, capture_output=True, text=True, errors="replace", timeout=timeout, env=env)
             except subprocess.TimeoutExpired:
                 raise Broken("replay timeout (looking for the crashing case) %s" % name)
-            if not go_fatal(p2) or not os.path.exists(mark):
+            if not go_fatal(p2) and p2.returncode in (0, 1, 3):
+                # the death needed the driver's parallel workers (e.g. "concurrent map writes" on state the library shares
+                # between runners): the ordered single-worker run is the replay that counts
+                log("%s: the parallel replay died (%s); continuing with the ordered single-worker run" % (name, fatal_text(p)[:120]))
+                self.assumptions.append("%s: replayed by one worker because the parallel replay died: %s" % (name, fatal_text(p)[:160]))
+                p, cmd = p2, cmd + ["-workers", "1"]
+            elif not go_fatal(p2) or not os.path.exists(mark):
                 raise Broken("driver crashed in %s and the crash did not recur in order: %s" % (name, p.stderr[-1500:]))
-            self.failures.append({"family": family, "kind": "state", "payload": open(mark).read(), "site": "crash",
-                                  "input": "(see the replay file)", "expected": "a value or an error",
-                                  "observed": "the process died: " + fatal_text(p2), "stage": name, "race": race})
-            self.stages.append({"stage": name, "kind": "replay", "family": family, "cases": 0, "crashed": True, "wall_s": round(time.time() - t, 1)})
-            log("%s: the process died in the real code: %s" % (name, fatal_text(p2)[:200]))
-            return {"cases": 0, "mismatches": [], "crashed": True}
+            if go_fatal(p):
+                self.failures.append({"family": family, "kind": "state", "payload": open(mark).read(), "site": "crash",
+                                      "input": "(see the replay file)", "expected": "a value or an error",
+                                      "observed": "the process died: " + fatal_text(p2), "stage": name, "race": race})
+                self.stages.append({"stage": name, "kind": "replay", "family": family, "cases": 0, "crashed": True, "wall_s": round(time.time() - t, 1)})
+                log("%s: the process died in the real code: %s" % (name, fatal_text(p2)[:200]))
+                return {"cases": 0, "mismatches": [], "crashed": True}
         if p.returncode not in (0, 1, 3) and not (race and p.returncode == 66):
             raise Broken("driver failed in %s (exit %d): %s" % (name, p.returncode, (p.stdout + p.stderr)[-2000:]))
         try:
@@ -329,6 +336,11 @@ class Ctx:
 
     def selftest_binding(self, name, module_rel, cfg_rel, tracef, family, corrupt, constants=None):
         """Binding self-test: corrupt one recorded field; the trace must then be rejected at that event."""
+        if any(f.get("stage", "").startswith(name) for f in self.failures):
+            # the trace as recorded is already rejected somewhere: the self-test (corrupt an accepted trace, see it rejected
+            # exactly there) has no clean trace to start from; the recorded failures are decided on their own
+            log("%s: binding self-test skipped (the recorded trace is rejected as it is)" % name)
+            return
         lines = [l for l in open(tracef, encoding="utf-8").read().split("\n") if l]
         idx, newline = corrupt(lines)
         lines[idx] = newline
@@ -421,17 +433,25 @@ class Ctx:
             key = json.dumps(f["cmd"][1:4])
             if key not in self.context_cache:
                 cmd = [fv] + f["cmd"][1:4] + ["-workers", "1"]
-                seen = set()
+                seen = None
                 for _ in range(2):            # twice: the failure must recur in both ordered runs
                     try:
                         p = subprocess.run(cmd, capture_output=True, text=True, errors="replace", timeout=3600)
                         rep = json.loads(p.stdout.strip().split("\n")[-1])
                     except Exception:
                         rep = {"mismatches": []}
-                    cur = set(m["state"] for m in rep["mismatches"])
-                    seen = cur if _ == 0 else (seen & cur)
+                    cur = {m["state"]: m for m in rep["mismatches"]}
+                    seen = cur if seen is None else {k: v for k, v in seen.items() if k in cur}
                 self.context_cache[key] = seen
-            return f["payload"] in self.context_cache[key]
+            stable = self.context_cache[key]
+            if f["payload"] in stable:
+                return f
+            # the candidate came from a run in another order; any case of the same site that fails in both ordered
+            # runs is as good a witness
+            for m in stable.values():
+                if m["site"] == f["site"]:
+                    return dict(f, payload=m["state"], input=m["input"], expected=m["expected"], observed=m["observed"])
+            return None
         if f["kind"] == "event" and f.get("reccmd"):
             rc = f["reccmd"]
             fv = self.build(rc.get("race", False))
@@ -451,8 +471,8 @@ class Ctx:
                     finally:
                         self.failures, self.validated, self.samples, self.stages, self.nontrivial = saved
                 self.context_cache[key] = bad_inputs
-            return (f["site"], f["input"]) in self.context_cache[key]
-        return False
+            return f if (f["site"], f["input"]) in self.context_cache[key] else None
+        return None
 
     def finish(self, rule, assumptions=(), extra_cov=None):
         known = self.known()
@@ -476,8 +496,9 @@ class Ctx:
                     break
             if conf is None:
                 for f in cands[:6]:
-                    if self.confirm_in_context(f):
-                        conf = dict(f, in_context=True)
+                    w = self.confirm_in_context(f)
+                    if w:
+                        conf = dict(w, in_context=True)
                         log("failure at site %s reproduces only after the cases before it (same run, same order): history-dependent" % site)
                         break
             if conf is None:
